@@ -263,6 +263,10 @@ impl Parts {
         if (variant / 8) % 4 == 1 {
             members.push(("zz_unknown".into(), json!("u")));
         }
+        if (variant / 8) % 4 == 2 && (variant / 4096) % 2 == 1 {
+            // unknown members with literal non-ASCII text in name and value
+            members.push(("zz_K\u{f6}ln_\u{1f600}".into(), json!("K\u{f6}ln \u{1f600} \u{4e2d}")));
+        }
         // unknown members whose NAMES come from neighbouring serialisations (general JWS JSON,
         // newer drafts): they must be ignored like any other unknown member
         match (variant / 256) % 16 {
